@@ -1,7 +1,8 @@
 /-
   Line handler for C15.
 
-    c15 ptr <parse|strict> <overwrite 0|1> <s|->     pointer through Parse/StrictParse  → "<u|W> <s|d|->"
+    c15 ptr <parse|strict> <overwrite 0|1> <k|b|x>   pointer through Parse/StrictParse (run only)  → "<u|W> <s|d|->"
+    c15 optr …                                       the same over the modelled language, schema and pointee in the op line
     c15 reparse                                      Parse, mutate result, Parse a fresh copy of the input → "same"
     c15 dflt <default|prefault> <depth>              Parse(nil), mutate, Parse(nil) ×2, mutate, Parse(nil) → "same,same,same"
 
@@ -80,6 +81,15 @@ def valRun (ts : List String) : String :=
     let r2 := rebuild (fun k v => some (k, v)) gdepth r.1 v
     if (reach gdepth r2.1.heap v, ser gdepth r2.1.heap v) == before then "u" else "W"
 
+/-- the clone of /repo HEAD (pinned): `deepCloneSeen`, memoised on cell identity (e9eb0f2) = `cloneIso`; `false` = the clone before
+    (`deepCloneValue` with its depth limit), kept for the witnesses only -/
+def deepCloneFixed : Bool := true
+
+def deepLook : Nat := 90
+
+def cloneOf (σ : GStore) (d : GVal) : GStore × GVal :=
+  if deepCloneFixed then cloneIso deepLook σ d else copy true legacyCloneLevels σ d
+
 structure HSt where
   σ : GStore
   results : List GVal
@@ -94,7 +104,7 @@ def histRun (withHash : Bool) (steps : List String) (ts : List String) : String 
     let owned := reach gdepth σ0.heap d
     let st : HSt := steps.foldl (fun st s =>
       if s == "P" then
-        let r := parseNilG true st.σ d
+        let r := cloneOf st.σ d
         let look := ser gdepth r.1.heap r.2
         let fr := disjoint (reach gdepth r.1.heap r.2) owned &&
                   st.results.all (fun o => disjoint (reach gdepth r.1.heap r.2) (reach gdepth r.1.heap o))
@@ -271,20 +281,54 @@ def specOwn (steps : List String) (model : String) : String :=
   let reps := ps.length - distinct.length
   ",".intercalate (List.replicate reps "same") ++ "|fresh|schema-same|" ++ (model.splitOn "|").getLast!
 
+/-! ### class `optr`: the pointer clause over the modelled language (`Gozod.Graph.parsePtrP` / `wantSame`)
+
+    c15 optr <parse|strict> <v|o|n|p> | T <ids of string scalars> | T | V
+        v = types.X(…), o = .Optional(), n = .Nilable(), p = types.XPtr(…); V = the caller's pointer (`R label 1 0 <pointee>`)
+        → "<u|W> <r|s|d|v> <h<look of the answer>|->"   r = refused, s = the caller's pointer, d = another pointer, v = a value
+       spec: "u" always; s / d by `wantSame` (the clause in its words, on schema and pointee alone); verdict and look are the model's
+-/
+
+def kindOf (k : String) : PKind :=
+  if k == "o" then .optional else if k == "n" then .nilable else if k == "p" then .pointer else .value
+
+def optrHandle (kind : String) (rest : List String) : String :=
+  match splitAt "|" rest with
+  | [_, tpart, schema, input] =>
+    let strs := (tpart.drop 1).map String.toNat!
+    match parseSch strs 32 schema (fun _ => none) with
+    | some (s, [], h) =>
+      match parseV 64 input h with
+      | some (.ref p, [], h') =>
+        let σ0 : GStore := { heap := h', next := countR rest + 1 }
+        let ps : PSchema := ⟨kindOf kind, s⟩
+        let seen (τ : GStore) := (ser gdepth τ.heap (.ref p), reach gdepth τ.heap (.ref p))
+        let r := parsePtrP ps σ0 p
+        let u := if seen r.1 == seen σ0 then "u" else "W"
+        let tok := match r.2 with
+          | none => "r"
+          | some (.ref q) => if q == p then "s" else if ps.kind.ptrTyped then "d" else "v"
+          | some _ => "v"
+        let look := match r.2 with
+          | none => "-"
+          | some w => s!"h{serHash (ser gdepth r.1.heap w)}"
+        let want := match r.2 with
+          | none => "r"
+          | some _ =>
+            match wantSame ps σ0 p with
+            | some true => "s"
+            | some false => "d"
+            | none => tok
+        s!"{u} {tok} {look}\tu {want} {look}"
+      | _ => "bad-input"
+    | _ => "bad-schema"
+  | _ => "bad-op"
+
 /-! ### class `deep`: defaults deeper than the clone's limit, self-referential defaults (`Gozod.Model.Clone`)
 
     c15 deep <default|prefault> <steps> | V      steps: P = Parse(nil), M<j>@<k> = mutate the j-th result k levels down its spine
         → "<same|CHANGED per later P>|<fresh|ALIASED>"
 -/
-
-/-- which clone the code under test has: `false` = /repo HEAD (`deepCloneValue` shares below `maxCloneDepth`),
-    `true` = after pending/C15-clone-deep-default (memoised clone) -/
-def deepCloneFixed : Bool := true
-
-def deepLook : Nat := 90
-
-def cloneOf (σ : GStore) (d : GVal) : GStore × GVal :=
-  if deepCloneFixed then cloneIso deepLook σ d else copy true legacyCloneLevels σ d
 
 structure DSt where
   σ : GStore
@@ -357,24 +401,26 @@ def dfltRun (cfg : Cfg) (d : Nat) : String :=
   s!"{w a},{w b},{w c}"
 
 def handleWith (cfg : Cfg) : List String → String
-  | ["ptr", _entry, ow, want] =>
+  | ["ptr", _entry, ow, cls] =>
+    -- classes ptr / ptr(gen) / ptr(ctor): schema types outside the modelled language — RUN ONLY. The op line carries no schema;
+    -- the harness reports what the answer looks like beside the pointee (`cls`), the clause is evaluated on that by
+    -- `Gozod.Graph.wantSameRun` (k → the same pointer, b → a pointer of its own, x → nothing asked) and on the digests (`u`).
+    -- There is no model of these schema types: the model column repeats the statement's verdict (BUILDING §2: the oracle is
+    -- evaluated on the implementation alone). The modelled language goes through `optr` below.
+    let want := match Gozod.Graph.wantSameRun cls with
+      | some true => "s"
+      | some false => "d"
+      | none => "-"
     if ow == "1" then
-      -- an overwrite check is attached: the rewritten value is stored through the pointer (`parsePtr`, unchanged by e584c0e)
+      -- an overwrite check is attached: the rewritten value is stored through the pointer (`Store.parsePtr … (some kv)`,
+      -- `*ptr = v; return ptr` — still the code): a write is expected and not judged, the caller's pointer comes back
       let σ : Store := { heap := upd (fun _ => none) 1 (.node [(1, .scalar 7)]), next := 2 }
       let r := parsePtr σ 1 (some [(1, .scalar 8)])
       let u := if ser depth r.1.heap (.ref 1) == ser depth σ.heap (.ref 1) then "u" else "W"
-      let same := if want == "-" then "-" else (if r.2 == .ref 1 then "s" else "d")
-      s!"{u} {same}\t{u} {want}"
-    else
-      -- validatePointer after /repo e584c0e (`Gozod.Graph.parsePtrS false`): nothing is stored; `want = s` is asked exactly when the
-      -- answer looks like the pointee (harness ptrVerdict) — a schema that hands back what it was given: the caller's pointer
-      let σ : Gozod.Graph.GStore :=
-        { heap := Gozod.Graph.gupd (Gozod.Graph.gupd (fun _ => none) 1 [(0, .scalar 7)]) 2 [(0, .ref 1)], next := 3 }
-      let r := Gozod.Graph.parsePtrS false (.slice .any) σ 2
-      let seen (τ : Gozod.Graph.GStore) := (Gozod.Graph.ser Gozod.Graph.gdepth τ.heap (.ref 2), Gozod.Graph.reach Gozod.Graph.gdepth τ.heap (.ref 2))
-      let u := if seen r.1 == seen σ then "u" else "W"
-      let same := if want == "-" then "-" else (match r.2 with | some (.ref 2) => "s" | _ => "d")
-      s!"{u} {same}\tu {want}"
+      let same := if cls == "x" then "-" else (if r.2 == .ref 1 then "s" else "d")
+      s!"{u} {same}\t{u} {same}"
+    else s!"u {want}\tu {want}"
+  | "optr" :: _entry :: kind :: rest => optrHandle kind rest
   | ["reparse"] => "same\tsame"
   | "val" :: _entry :: ow :: "|" :: g =>
     -- a schema with an overwrite / transform somewhere is outside the statement: not judged ("o")
